@@ -71,6 +71,8 @@ func (g *G) Len1() int {
 	return n
 }
 
+var unicodeSpecials = []string{"\uFFFD", "\uFEFF", "\uD7FF", "\uE000", "\U00010000", "\u0301", "\u2028", "\u00A0", "\U0001F600", "\u00DF"}
+
 const alphabet = "abcdefghijklmnopqrstuvwxyzABCDEFGHIJKLMNOPQRSTUVWXYZ0123456789/-_."
 
 // Str returns a well-formed UTF-8 string of exactly n bytes (no U+0000).
@@ -140,6 +142,27 @@ func (g *G) str0(n int) []byte {
 		copy(b, "€") // 3 bytes
 	} else if n >= 2 && g.T.Bool(1, 8) {
 		copy(b, "é") // 2 bytes
+	}
+	// sometimes a code point with a reputation somewhere inside: U+FFFD (what Go's
+	// decoder also returns for broken input), U+FEFF (a BOM that MUST NOT be
+	// stripped, MQTT-1.5.4-3), the last code point before and the first after the
+	// surrogate range, the first supplementary one, a combining mark, a line
+	// separator. All of them are allowed in an MQTT string.
+	if n >= 4 && g.T.Bool(1, 10) {
+		r := unicodeSpecials[g.T.Int(len(unicodeSpecials))]
+		if len(r) <= n {
+			at := g.T.Int(n - len(r) + 1)
+			// keep what is already there well-formed: only overwrite ASCII
+			ok := true
+			for _, x := range b[at : at+len(r)] {
+				if x >= 0x80 {
+					ok = false
+				}
+			}
+			if ok {
+				copy(b[at:], r)
+			}
+		}
 	}
 	return b
 }
